@@ -45,10 +45,36 @@ def linked_targets(w, rng):
     w.put_link(pb, pa)
 
 
+def prefix_dirs(w, rng):
+    """Flag on; a multi-file torrent with two sibling directories of which one name is a TEXTUAL prefix of the other
+    ('S 1' / 'S 10'); the first is absent from the export tree, the second exists and holds a file that is short (to be
+    extended) or over-long (the run must abort untouched)."""
+    import worldgen
+    w.resize = True
+    L = rng.choice([2, 4])
+    a = worldgen.TFile([b"S 1", b"a.bin"], worldgen.rand_content(rng, rng.randint(1, 6)))
+    b = worldgen.TFile([b"S 10", b"b.bin"], worldgen.rand_content(rng, rng.randint(2, 6)))
+    c = worldgen.TFile([b"S 10", b"c.bin"], worldgen.rand_content(rng, rng.randint(1, 4)))
+    t = worldgen.TorrentSpec(b"show%d" % rng.randint(0, 99), L, [a, b, c], False)
+    if any(t.info_hash == u.info_hash for u in w.torrents):
+        return
+    w.torrents.append(t)
+    w.presented = list(w.presented) + [len(w.torrents) - 1]
+    for k, f in enumerate(t.files):
+        w.put_file(tuple(list(w.scans[0]) + [b"pfx_%d" % k]), f.content)
+    tb = tuple(list(w.export) + t.rel_target(b))
+    if rng.random() < 0.5:
+        w.put_file(tb, b.content[:rng.randrange(b.length)])                 # short: must be extended and count as a source
+    else:
+        w.put_file(tb, b.content + bytes(rng.randint(1, 3)))                # over-long: abort before any change
+    w.put_file(tuple(list(w.export) + t.rel_target(c)), c.content[:rng.randrange(c.length + 1)])
+
+
 correspondence, search, replay, ASSUMPTIONS = runbase.make(
     "C14", [oracles.c14, oracles.c02],
     [("on", 140, 1200, {"export_heavy": True}, force(True)), ("off", 80, 700, {"export_heavy": True}, force(False)),
-     ("source", 50, 450, {"export_heavy": True}, only_in_export), ("linked", 30, 250, {"export_heavy": True}, linked_targets)],
-    "worlds in which most export files pre-exist in a random state (absent / shorter by any amount / exact / longer), any file order, flag on and off, and (stream source) extended export files as the only source of their pieces, (stream linked) two export paths of different declared lengths hard-linked to one file that is over-long for one of them (availability oracle of C02 on the state after the pre-flight); pre-flight operations from the fs-shim log and before/after snapshots, plus trace validation of the prelude program",
+     ("source", 50, 450, {"export_heavy": True}, only_in_export), ("linked", 30, 250, {"export_heavy": True}, linked_targets),
+     ("prefixdirs", 24, 200, {"export_heavy": True}, prefix_dirs)],
+    "worlds in which most export files pre-exist in a random state (absent / shorter by any amount / exact / longer), any file order, flag on and off, and (stream source) extended export files as the only source of their pieces, (stream prefixdirs) sibling export directories one of whose names is a textual prefix of the other, the shorter-named one absent, (stream linked) two export paths of different declared lengths hard-linked to one file that is over-long for one of them (availability oracle of C02 on the state after the pre-flight); pre-flight operations from the fs-shim log and before/after snapshots, plus trace validation of the prelude program",
     "resize_abort_no_mutation / resize_extends_exactly on the prelude program; tied to fix_export_file_lengths by prelude trace validation",
     ["a directory sitting at an export path is outside the modelled fragment"])
